@@ -28,6 +28,9 @@ def check_pair(case, ctx):
     kind = case["kind"]
     (m1, s1), (m2, s2) = case["a"], case["b"]
     a, b = mk(kind, m1, s1), mk(kind, m2, s2)
+    if case.get("same_id"):
+        b.id = a.id  # a snapshot and its later version share the id (deepcopy keeps it): equality is still about the values
+        ctx.label("same-id")
     z = case["z"]
     ctx.label("kind:" + kind)
     # ordinal
@@ -164,8 +167,10 @@ class Leaderboard:
             self._check_pair(step["i"] % n, step["j"] % n)
         elif op == "assign":
             r = self.pool[step["i"] % n]
-            r.mu = step["mu"]
-            r.sigma = step["sigma"]
+            if step.get("mu") is not None:
+                r.mu = step["mu"]
+            if step.get("sigma") is not None:
+                r.sigma = step["sigma"]
             self.changed_after_compare = bool(self.compared)
         elif op == "play":
             i, j = step["i"] % n, step["j"] % n
@@ -196,6 +201,10 @@ Leaderboard.RULES = {
     "compare": lambda h: st.fixed_dictionaries({"op": st.just("compare"), "i": st.integers(0, 5), "j": st.integers(0, 5)}),
     "assign": lambda h: st.fixed_dictionaries({"op": st.just("assign"), "i": st.integers(0, 5), "mu": st.integers(-40, 80).map(lambda i: i / 2.0),
                                                "sigma": st.integers(1, 24).map(lambda i: i / 2.0)}),
+    "assign_sigma_only": lambda h: st.fixed_dictionaries({"op": st.just("assign"), "i": st.integers(0, 5), "mu": st.none(),
+                                                          "sigma": st.integers(1, 24).map(lambda i: i / 2.0)}),
+    "assign_mu_only": lambda h: st.fixed_dictionaries({"op": st.just("assign"), "i": st.integers(0, 5), "mu": st.integers(-40, 80).map(lambda i: i / 2.0),
+                                                       "sigma": st.none()}),
     "play": lambda h: st.fixed_dictionaries({"op": st.just("play"), "i": st.integers(0, 5), "j": st.integers(0, 5),
                                              "ranks": st.sampled_from([[0, 1], [1, 0], [0, 0]])}),
     "sort": lambda h: st.just({"op": "sort"}),
@@ -237,7 +246,7 @@ def pair_cases(draw):
         a = [draw(_num()), draw(_num())]
         b = [draw(_num()), draw(_num())]
     z = draw(st.one_of(st.just(3.0), st.integers(-5, 5), st.floats(-10.0, 10.0)))
-    return {"kind": kind, "a": a, "b": b, "z": z}
+    return {"kind": kind, "a": a, "b": b, "z": z, "same_id": draw(st.integers(0, 3)) == 0}
 
 
 @st.composite
